@@ -5,6 +5,7 @@ import (
 	"encoding/binary"
 	"fmt"
 	"go/types"
+	"math/big"
 	"os"
 	"sort"
 	"time"
@@ -117,6 +118,9 @@ func Run(sh *Shared, fn *ssa.Function, opt Options) *Result {
 			rnd:      opt.Seed,
 			locks:    map[string]int{},
 			onceDone: map[string]bool{},
+		}
+		if len(prefix) == 0 {
+			in.model = map[string]*big.Int{}
 		}
 		pr := in.runPath(fn)
 		pr.ID = pathID
